@@ -10,7 +10,7 @@ decimal number of at most five digits, a tail starting with `/`, `?` or `#` — 
 whitespace at all (the safe unquoters escape it, `noWs_safelyUnquote`).
 -/
 namespace Ural.UrlPattern
-open Ural.Py Ural.Py.Re Ural.Gen.Patterns Ural.UrlParts Ural.UrlRoundTrip Ural.CanonRoundTrip
+open Ural.Py Ural.Py.Re Ural.Py.Re.Extra Ural.Gen.Patterns Ural.UrlParts Ural.UrlRoundTrip Ural.CanonRoundTrip
 open Ural.Quote Ural.Canonicalize
 
 /-- no `str.isspace` character -/
